@@ -5,12 +5,16 @@ model was written against (`ggqldrv_pinned`, used only to search for a failing i
 generated ones no longer elaborate).
 -/
 import Ggql.Model.Skip
+import Ggql.Model.LockTable
 namespace Ggql.Driver
 
 structure Tables where
   skip : Skip.Table
+  locks : List LockTable.Access
 
 def pinnedTables : Tables :=
-  { skip := Skip.tableAssign }
+  { skip := Skip.tableAssign,
+    -- pinned: the one unguarded site of the pinned tree (D26)
+    locks := [⟨"regField", .objMeta, false, [.fdMu], true⟩, ⟨"assureType", .objMeta, true, [.objMu], true⟩] }
 
 end Ggql.Driver
